@@ -2,6 +2,7 @@
 
 The runner also serves the ProximityArchive clauses of C02 / C06 / C07 (`PX_PROPS`).
 """
+import copy
 import math
 from fractions import Fraction as F
 
@@ -61,6 +62,15 @@ ASSUMPTIONS = ["the nearest stored entry of a non-novel candidate is taken from 
                "(deterministic k-D tree query) and validated against the exact nearest set (angelic choice)"]
 PX_PROPS = {"C14", "C02", "C06", "C07"}
 PREC = 40
+# non-default options for the k-D tree (`ckdtree_kwargs`): none of them changes a distance
+TREE_OPTS = [{"leafsize": 1}, {"leafsize": 2}, {"leafsize": 3, "balanced_tree": False}, {"compact_nodes": False},
+             {"balanced_tree": False, "compact_nodes": False}, {"leafsize": 40, "copy_data": True}, {}]
+# a periodic measure space (`boxsize`): the whole history lives in [BOX_SHIFT - 32, BOX_SHIFT + 32], far less than half
+# a box, so that the wrapped distance between any two points of it IS their Euclidean distance; a candidate outside
+# [0, BOX_L) cannot be stored (the tree refuses such data): that call has to be rejected
+BOX_L, BOX_SHIFT = 1024, 40
+# what a correctly rejected add / add_single must leave untouched is judged for every property the runner serves
+REJ_PROPS = ("C11", "C14")
 
 
 def sqrt_bracket(x):
@@ -89,9 +99,16 @@ def gen_case(rng, nd=None):
 
     seen = []
 
-    def row():
+    def row(novel=False):
         tok[0] += 1
         nu = F(case["nu"])
+        if novel:
+            # a lattice point at least 8 away (in its first coordinate) from everything the history ever submits
+            # (lattice within +-span, probes at most 5 + 3/2^20 beyond): novel for every threshold drawn above, whatever
+            # the archive holds -- used by the calls that must be REJECTED, so that the store would have to write
+            m = [q(F(rng.choice([-1, 1]) * (span + 14 + rng.randint(0, 6)))) if i == 0 else q(F(rng.randint(-span, span)))
+                 for i in range(nd)]
+            return [tok[0], q(F(rng.randint(-6, 6), rng.choice([1, 2]))), m]
         if seen and nu > 0 and rng.random() < 0.12:
             # a probe a few parts per million inside / outside the threshold sphere of an earlier point (axis
             # aligned, so the distance is exact): admission is decided by `novelty >= threshold`, not "close to"
@@ -121,8 +138,8 @@ def gen_case(rng, nd=None):
         case["tenths"] = True
         plain_row = row
 
-        def row():      # noqa: F811
-            t, o, m = plain_row()
+        def row(novel=False):      # noqa: F811
+            t, o, m = plain_row(novel)
             return [t, q(F(rng.randint(-5, 5), 10)), m]
 
     # `far`: a float32 archive whose measures sit around +-2^20 (one ulp = 1/8) while the candidates are submitted as
@@ -134,10 +151,24 @@ def gen_case(rng, nd=None):
         case["far"] = True
         base_row = row
 
-        def row():      # noqa: F811
-            t, o, m = base_row()
+        def row(novel=False):      # noqa: F811
+            t, o, m = base_row(novel)
             sh = [F(2**20), F(-2**20), F(2**19)]
             return [t, o, [q(F(x) + sh[i % 3] + F(rng.randrange(16), 16)) for i, x in enumerate(m)]]
+
+    # non-default k-D tree options, passed as a dict object that the harness goes on using (it is mutated and handed to
+    # a second archive right after construction and again at the `kwmut` operations): the archive under test keeps
+    # the options it was constructed with
+    if rng.random() < 0.5:
+        case["tree"] = dict(rng.choice(TREE_OPTS))
+        if not far and rng.random() < 0.35:
+            case["tree"]["boxsize"] = rng.choice([BOX_L, float(BOX_L), [float(BOX_L)] * nd])
+            case["box"] = True
+
+    # when (after which operation) the bounds are looked at: both after every operation (the cached values are then
+    # always filled in before the next call), one of them only, or neither (then they are judged on a deep copy, which
+    # carries the cache along but leaves the archive's own cache as it is)
+    peeks = rng.choice([["both"], ["both", "both", "lower", "upper", "none", "none"], ["none", "none", "both"]])
 
     ops = []
     for _ in range(rng.randint(3, 12)):
@@ -154,15 +185,45 @@ def gen_case(rng, nd=None):
             ops.append({"op": "clear"})
         else:
             ops.append({"op": "bounds"})
+    for op in ops:
+        op["peek"] = rng.choice(peeks)
     case["ops"] = ops
     case["forms"] = archlib.gen_forms(rng)
     if case["forms"]["dtype"] == "dictmix":      # mixed objective / measures precision: fixed-cell runner only
         case["forms"]["dtype"] = "dictsol"
-    archlib.sprinkle(rng, case)     # checkpoints: continue on a pickled / deep-copied archive
+    # calls that must be REJECTED, at random points of the history (the archive is used again afterwards): an extra
+    # field in a shape that cannot be written (a column vector / an extra trailing axis / a wrong extent / an extra
+    # leading axis), a core argument with an extra trailing axis, a candidate outside the periodic box -- always in
+    # a batch with a candidate that is novel whatever the archive holds, so that the store would have to write
+    if rng.random() < 0.45:
+        for _ in range(rng.choice([1, 1, 2, 3])):
+            single = rng.random() < 0.3
+            n = 1 if single else rng.choice([1, 2, 2, 3, 3, 4, 6])
+            rows = [row() for _ in range(n - 1)] + [row(novel=True)]
+            rng.shuffle(rows)
+            hows = ["column", "trail", "wide", "lead", "core"] + (["box"] * 5 if case.get("box") else [])
+            ops.insert(rng.randint(0, len(ops)), {"op": "rej", "entry": "add1" if single else "add", "how": rng.choice(hows),
+                                                  "rows": rows, "field": rng.randrange(12), "variant": rng.randrange(12),
+                                                  "pos": rng.randrange(n), "peek": rng.choice(peeks)})
+    if "tree" in case:
+        for _ in range(rng.choice([0, 1, 1, 2])):
+            ops.insert(rng.randint(0, len(ops)), {"op": "kwmut", "how": rng.randrange(8)})
+    # checkpoints (continue on a pickled / deep-copied archive) and malformed calls of every entry point
+    archlib.sprinkle(rng, case, rows_fn=row, prox_noobj_ok=not lc)
+    return box_shift(case)
+
+
+def box_shift(case):
+    """periodic measure space: move the whole history into the box (see BOX_L)"""
+    if case.get("box"):
+        for op in case["ops"]:
+            for r_ in op.get("rows", []) + ([op["row"]] if "row" in op else []):
+                r_[2] = [q(F(x) + BOX_SHIFT) for x in r_[2]]
     return case
 
 
-def make(case):
+def make(case, keep=None):
+    """the archive of the case; `keep` (a list) receives the very dict object that was passed as `ckdtree_kwargs`"""
     from ribs.archives import ProximityArchive
     kw = dict(local_competition=case["lc"], initial_capacity=case["cap"], qd_score_offset=float(fr(case["off"])),
               dtype=archlib.dtype_arg(case), extra_fields=archlib.extra_fields(case["layout"]))
@@ -178,6 +239,11 @@ def make(case):
         del kw["extra_fields"]
     if case["dtype"] == "f64" and case.get("forms", {}).get("dtype", "one") == "one":
         del kw["dtype"]
+    if case.get("tree") is not None:
+        opts = {k: (np.array(v, dtype=np.float64) if isinstance(v, list) else v) for k, v in case["tree"].items()}
+        kw["ckdtree_kwargs"] = opts
+        if keep is not None:
+            keep.append(opts)
     return ProximityArchive(solution_dim=case["sol_dim"], measure_dim=case["nd"], k_neighbors=case["k"],
                             novelty_threshold=float(fr(case["nu"])), seed=0, **kw)
 
@@ -190,7 +256,15 @@ class Run:
 
     def __init__(self, case, props):
         self.case, self.props = case, set(props)
-        self.a = make(case)
+        keep = []
+        self.a = make(case, keep)
+        # the dict that was passed as `ckdtree_kwargs` stays in the caller's hands: it is changed and re-used for a
+        # second archive (a periodic one) straight away and again later in the history
+        self.opts = keep[0] if keep else None
+        self.others = []
+        self.stat = {}
+        self.peek = "both"
+        self.kwmut(0)
         self.dt = case["dtype"]
         self.nu = F(float(self.a.novelty_threshold))
         self.drv = Driver("prox")
@@ -200,7 +274,36 @@ class Run:
         self.grew = 0
         self.submitted = {}
         self.after_bad = None
-        self.stat = {}
+
+    def bump(self, key):
+        self.stat[key] = self.stat.get(key, 0) + 1
+
+    def kwmut(self, how):
+        """The caller changes the options dict it once passed to the constructor and sets up another archive with it
+        (a periodic measure space of a few units: distances there wrap around)."""
+        o = self.opts
+        if o is None:
+            return
+        from ribs.archives import ProximityArchive
+        nd = self.case["nd"]
+        how = how % 4
+        if how == 0:
+            o["boxsize"] = 2.0
+            o["leafsize"] = 1
+        elif how == 1:
+            o.clear()
+            o["boxsize"] = np.full(nd, 1.0)
+        elif how == 2:
+            o.pop("leafsize", None)
+            o.update(boxsize=0.5, balanced_tree=True)
+        else:
+            o.update(boxsize=4.0, compact_nodes=True)
+        other = ProximityArchive(solution_dim=1, measure_dim=nd, k_neighbors=1, novelty_threshold=0.01, ckdtree_kwargs=o)
+        other.add([[0.0], [1.0]], None, [[0.25] * nd, [0.125] * nd])
+        for old in self.others[-2:]:
+            old.add_single([2.0], None, [0.375] * nd)       # the earlier ones stay in use, too
+        self.others.append(other)
+        self.bump(f"kwmut:{how}")
 
     def F_(self, prop, kind, what):
         if "C11" in self.props:
@@ -220,18 +323,36 @@ class Run:
                 return f
         return None
 
-    def snapshot(self):
+    def snapshot(self, peek="both"):
         o = self.obs()
         o.pop("bad")
         # `capacity` is deliberately not part of the C11 snapshot: ProximityArchive.add grows the store before the
         # store validates the field set, so a rejected call may leave the capacity doubled; C11 lists contents,
         # thresholds, statistics and best elite (DESIGN section 3, observed, not claimed)
-        for name in ("lower_bounds", "upper_bounds"):
-            try:
-                o[name] = [float(x) for x in getattr(self.a, name)]
-            except RuntimeError:
-                o[name] = None
+        lo, hi = self.read_bounds(peek)
+        o["lower_bounds"] = None if lo is None else [float(x) for x in lo]
+        o["upper_bounds"] = None if hi is None else [float(x) for x in hi]
         return o
+
+    def read_bounds(self, peek="both"):
+        """(lower_bounds, upper_bounds), each a list of exact values or None when unavailable.  The sides named by
+        `peek` (both / lower / upper / none) are read from the archive itself, which fills its cache; the others
+        from a deep copy, which carries a cached (possibly stale) value along but leaves the archive's own cache as it
+        is -- so the histories differ in WHEN the archive's bounds were last looked at."""
+        twin = None
+        out = []
+        for name, tag in (("lower_bounds", "lower"), ("upper_bounds", "upper")):
+            if peek in ("both", tag):
+                src = self.a
+            else:
+                twin = twin if twin is not None else copy.deepcopy(self.a)
+                src = twin
+            try:
+                out.append([F(float(x)) for x in getattr(src, name)])
+            except RuntimeError:
+                out.append(None)
+        self.bump(f"bounds-read:{peek}")
+        return tuple(out)
 
     def make_sched(self, entry, n):
         from ribs.emitters import GaussianEmitter
@@ -256,18 +377,18 @@ class Run:
         try:
             post = self.snapshot()
         except (OverflowError, ValueError) as e:
-            return self.F_("C11", "oracle", f"{where}: malformed call {desc} "
+            return self.F_any(REJ_PROPS, "oracle", f"{where}: malformed call {desc} "
                            f"{'raised ' + str(exc) if res == 'raised' else 'was accepted without an error'} and left "
                            f"non-finite values in the archive ({type(e).__name__}: {e})")
         if res == "accepted" and faultlib.must_raise(op):
-            return self.F_("C11", "oracle", f"{where}: malformed call {desc} was accepted without an error")
+            return self.F_any(REJ_PROPS, "oracle", f"{where}: malformed call {desc} was accepted without an error")
         if res == "accepted":
             if post != pre:
-                return self.F_("C11", "oracle", f"{where}: malformed call {desc} was accepted without an error and "
+                return self.F_any(REJ_PROPS, "oracle", f"{where}: malformed call {desc} was accepted without an error and "
                                f"changed the archive: {[k for k in pre if pre[k] != post[k]]}")
             return None
         if post != pre:
-            return self.F_("C11", "oracle", f"{where}: {desc} raised {exc} but changed the archive: "
+            return self.F_any(REJ_PROPS, "oracle", f"{where}: {desc} raised {exc} but changed the archive: "
                            f"{[k for k in pre if pre[k] != post[k]]}")
         if int(self.a.capacity) != cap_before:
             self.stat["bad:capacity-grew-on-rejected-call"] = self.stat.get("bad:capacity-grew-on-rejected-call", 0) + 1
@@ -275,17 +396,149 @@ class Run:
         self.after_bad = desc
         return None
 
+    def malform(self, op, sol, obj, meas, extras):
+        """The arguments of a call that must be rejected (`rej` operation), or None when this malformation does not
+        apply to the case.  Batch form; an add_single gets row 0 of everything."""
+        how, layout, nd = op["how"], self.case["layout"], self.case["nd"]
+        n = len(sol)
+        names = list(extras)
+        scalars = [k for k in names if extras[k].ndim == 1]
+        if how in ("column", "trail", "wide", "lead") and not names:
+            how = "core"                                  # no extra field to mis-shape: a core argument instead
+        if how == "column":
+            # a scalar field handed over as a column vector (n, 1)
+            name = (scalars or names)[op["field"] % len(scalars or names)]
+            extras = dict(extras, **{name: extras[name].reshape((n, 1) + extras[name].shape[1:])})
+            what = f"extra field {name} of shape {extras[name].shape}"
+        elif how == "trail":
+            # any field with an extra trailing axis of extent 1
+            name = names[op["field"] % len(names)]
+            extras = dict(extras, **{name: extras[name][..., None]})
+            what = f"extra field {name} of shape {extras[name].shape}"
+        elif how == "wide":
+            # one entry too many along the last axis of the field (a row of three for a scalar field)
+            name = names[op["field"] % len(names)]
+            v = extras[name]
+            v = np.repeat(v[:, None], 3, axis=1) if v.ndim == 1 else np.concatenate([v, v[..., :1]], axis=-1)
+            extras = dict(extras, **{name: v})
+            what = f"extra field {name} of shape {v.shape}"
+        elif how == "lead":
+            # an extra leading axis: (1, n, ...) -- or (n, n, ...) in a batch of one
+            name = names[op["field"] % len(names)]
+            v = extras[name][None] if n > 1 else np.stack([extras[name], extras[name]])
+            extras = dict(extras, **{name: v})
+            what = f"extra field {name} of shape {v.shape}"
+        elif how == "core":
+            arg = ["solution", "measures", "objective"][op["variant"] % (2 if obj is None else 3)]
+            if arg == "solution":
+                sol = sol[..., None]
+            elif arg == "measures":
+                meas = meas[..., None]
+            else:
+                obj = obj[..., None]
+            what = f"{arg} with an extra trailing axis"
+        elif how == "box":
+            if not self.case.get("box"):
+                return None
+            # one candidate outside the periodic box [0, L): by a whole box and a half, by half a box below zero,
+            # just beyond the upper edge, on the upper edge, just below zero (all of them wrap to a place at least 7
+            # away from everything in the history: novel, so the archive would have to store it)
+            meas = meas.copy()
+            ax, v = op["field"] % nd, op["variant"] % 5
+            x = meas[op["pos"] % n, ax]
+            meas[op["pos"] % n, ax] = [x + 1.5 * BOX_L, x - 0.5 * BOX_L, BOX_L + 1.0, float(BOX_L), -1.0][v]
+            what = f"measures {meas[op['pos'] % n].tolist()} outside the periodic box of size {BOX_L}"
+        else:
+            return None
+        return sol, obj, meas, extras, what
+
+    def probe(self, post, qs, where, props):
+        """novelty / nearest entry of the measures `qs` as the archive computes them now, against brute force over
+        the entries it holds now (bracketed exact arithmetic, as in do_add)"""
+        rows = sorted(post["rows"].items())
+        if not rows or not qs:
+            return None
+        dt, k = self.dt, min(self.case["k"], len(rows))
+        arr = np.array([[float(x) for x in m] for m in qs], dtype=NP[dt])
+        nov = [F(float(x)) for x in np.atleast_1d(self.a.compute_novelty(arr))]
+        near = [int(i) for i in self.a.index_of(arr)]
+        tol = archlib.TOL[dt]
+        for m, v, j in zip(qs, nov, near):
+            d2 = sorted((sum((a - b)**2 for a, b in zip(r["meas"], m)), i) for i, r in rows)
+            br = [sqrt_bracket(x[0]) for x in d2[:k]]
+            lo, hi = sum(b[0] for b in br) / k, sum(b[1] for b in br) / k
+            if not (lo - tol * max(1, hi) <= v <= hi + tol * max(1, hi)):
+                return self.F_any(props, "oracle", f"{where}: compute_novelty({[str(x) for x in m]}) = {float(v)} outside the "
+                                  f"exact bracket [{float(lo)}, {float(hi)}] of the mean distance to the {k} nearest of the "
+                                  f"{len(rows)} entries the archive holds")
+            if j not in post["rows"] or sum((a - b)**2 for a, b in zip(post["rows"][j]["meas"], m)) != d2[0][0]:
+                return self.F_any(props, "oracle", f"{where}: index_of({[str(x) for x in m]}) = {j} is not a nearest one of "
+                                  f"the {len(rows)} entries the archive holds")
+        return None
+
+    def do_rej(self, op, where):
+        """A call that must be rejected (see `malform`), somewhere in the history; the archive is used again
+        afterwards.  What it holds and reports -- entries, statistics, best elite, bounds, the novelty and nearest
+        entry of later candidates -- must be as if the call had never happened."""
+        case, dt = self.case, self.dt
+        sd, layout, nd = case["sol_dim"], case["layout"], case["nd"]
+        rows = op["rows"]
+        single = op["entry"] == "add1"
+        toks = [r[0] for r in rows]
+        sol = np.array([solution_of(t, sd) for t in toks], dtype=NP[dt]).reshape(len(rows), sd)
+        obj = None if case["noobj"] else np.array([float(fr(r[1])) for r in rows], dtype=np.float64)
+        meas = np.array([[float(fr(m)) for m in r[2]] for r in rows], dtype=np.float64).reshape(len(rows), nd)
+        args = self.malform(op, sol, obj, meas, batch_kwargs(layout, toks))
+        if args is None:
+            self.bump(f"rej:{op['entry']}:{op['how']}:skip")
+            return None
+        sol, obj, meas, extras, what = args
+        pre = self.snapshot(self.peek)
+        cap_before = int(self.a.capacity)
+        exc = None
+        try:
+            if single:
+                self.a.add_single(sol[0], None if obj is None else obj[0], meas[0], **{k: v[0] for k, v in extras.items()})
+            else:
+                self.a.add(sol, obj, meas, **extras)
+        except (ValueError, TypeError, IndexError, RuntimeError) as e:      # (documented: ValueError)
+            exc = f"{type(e).__name__}: {str(e)[:120]}"
+        self.bump(f"rej:{op['entry']}:{op['how']}:{'raised' if exc else 'accepted'}")
+        desc = f"{'add_single' if single else 'add'}({what}; {len(rows)} candidate{'s' if len(rows) != 1 else ''})"
+        verb = f"raised {exc}" if exc else "was accepted without an error"
+        try:
+            post = self.snapshot(self.peek)
+        except (OverflowError, ValueError) as e:
+            return self.F_any(REJ_PROPS, "oracle", f"{where}: {desc} {verb} and left non-finite values in the archive "
+                              f"({type(e).__name__}: {e})")
+        if int(self.a.capacity) != cap_before:
+            self.bump("rej:capacity-grew-on-rejected-call")
+            self.drv.ask(f"setcap {int(self.a.capacity)}")
+        prev, self.after_bad = self.after_bad, desc
+        tag = f"{where}: after {desc} {verb}"
+        # whatever the call left behind, the statistics describe the entries the archive lists
+        f = self.stats_check(post, tag, props=("C06",) + REJ_PROPS)
+        if f is None and post != pre:
+            diff = [k for k in pre if pre[k] != post[k]]
+            f = self.F_any(REJ_PROPS, "oracle", f"{where}: {desc} {verb} {'but' if exc else 'and'} changed the archive: {diff} "
+                           f"(len {pre['len']} -> {post['len']}, entries {sorted(pre['rows'])} -> {sorted(post['rows'])})")
+        # the derived views (bounds, the neighbour index behind novelty / retrieval) describe them, too
+        qs = [[to_dtype(fr(x), dt) for x in r[2]] for r in rows] if op["how"] != "box" else []
+        qs += [r["meas"] for _, r in sorted(post["rows"].items())[:3]]
+        f = f or self.bounds_check(post, tag) or self.self_retrieval(post, tag, props=("C07",) + REJ_PROPS) \
+            or self.probe(post, qs, tag, REJ_PROPS)
+        if f is not None:
+            return f
+        if not exc:
+            self.after_bad = prev       # nothing was rejected (no candidate had to be written): lenient, as in do_bad
+        return None
+
     def obs(self):
         return archlib.observe(self.a, obs_case(self.case))
 
     def bounds_check(self, post, where):
         rows = post["rows"]
-        def side(name):   # each bound on its own: one being unavailable must not hide a stale other
-            try:
-                return [F(float(x)) for x in getattr(self.a, name)]
-            except RuntimeError:
-                return None
-        got = (side("lower_bounds"), side("upper_bounds"))
+        got = self.read_bounds(self.peek)   # each bound on its own: one being unavailable must not hide a stale other
         if (got[0] is None) != (got[1] is None):
             return self.F_("C14", "oracle", f"{where}: lower_bounds is {'un' if got[0] is None else ''}available but "
                            f"upper_bounds is {'un' if got[1] is None else ''}available")
@@ -451,7 +704,7 @@ class Run:
                     return self.F_("C14", "corr", f"{where}: novelty impl={float(v)} model bracket [{float(lo)}, {float(hi)}]")
         return self.compare(post, cap_post, where)
 
-    def stats_check(self, post, where):
+    def stats_check(self, post, where, props=("C06",)):
         rows, s = post["rows"], post["stats"]
         n = len(rows)
         off = F(float(self.a.qd_score_offset))
@@ -474,9 +727,9 @@ class Run:
             bad = f"obj_max={s['max']} below the current maximum"
         elif n == 0 and (s["max"] is not None or post["best"] is not None or s["qd"] != 0):
             bad = "empty archive but statistics not reset"
-        return self.F_("C06", "oracle", f"{where}: {bad}") if bad else None
+        return self.F_any(props, "oracle", f"{where}: {bad}") if bad else None
 
-    def self_retrieval(self, post, where):
+    def self_retrieval(self, post, where, props=("C07",)):
         rows = post["rows"]
         if not rows:
             return None
@@ -486,7 +739,7 @@ class Run:
         for k, i in enumerate(idx):
             j = int(data["index"][k])
             if not occ[k] or j not in rows or rows[j]["meas"] != rows[i]["meas"]:
-                return self.F_("C07", "oracle", f"{where}: entry {i} is not found by querying its own measures (got index {j}, occupied {bool(occ[k])})")
+                return self.F_any(props, "oracle", f"{where}: entry {i} is not found by querying its own measures (got index {j}, occupied {bool(occ[k])})")
         return None
 
     def compare(self, post, cap_post, where):
@@ -509,10 +762,8 @@ class Run:
         if md["bounds"] != "none":
             lo, hi = md["bounds"].split("|")
             want_b = ([F(x) for x in lo.split(",")], [F(x) for x in hi.split(",")])
-        try:
-            got_b = ([F(float(x)) for x in self.a.lower_bounds], [F(float(x)) for x in self.a.upper_bounds])
-        except RuntimeError:
-            got_b = None
+        got_b = self.read_bounds(self.peek)
+        got_b = None if got_b[0] is None or got_b[1] is None else got_b
         if got_b != want_b:
             return self.F_("C14", "corr", f"{where}: bounds impl={got_b} model={want_b}")
         return None
@@ -522,6 +773,7 @@ class Run:
             for k, op in enumerate(self.case["ops"]):
                 where = f"op#{k} {op['op']}"
                 f = None
+                self.peek = op.get("peek", "both")
                 if op["op"] == "add":
                     f = self.do_add(op["rows"], False, where)
                 elif op["op"] == "add1":
@@ -538,8 +790,13 @@ class Run:
                     f = self.bounds_check(self.obs(), where)
                 elif op["op"] == "ckpt":
                     self.a = archlib.checkpoint(self.a, op.get("how", "pickle"))
+                    self.bump(f"ckpt:{op.get('how', 'pickle')}")
                 elif op["op"] == "bad":
                     f = self.do_bad(op, where)
+                elif op["op"] == "rej":
+                    f = self.do_rej(op, where)
+                elif op["op"] == "kwmut":
+                    self.kwmut(op["how"])
                 if f is not None:
                     return f
             return None
@@ -547,8 +804,18 @@ class Run:
             self.drv.close()
 
 
-def run_case(case, props=("C14",)):
-    return archlib.guarded(Run(case, props), set(props))
+def run_case(case, props=("C14",), ctx=None):
+    r = Run(case, props)
+    f = archlib.guarded(r, set(props))
+    if ctx is not None:
+        for k, v in r.stat.items():
+            ctx.count(f"{case.get('stratum', 'case')}:{k}", v)
+        ctx.count("undecided-admissions", r.undecided)
+        ctx.count("capacity-growths", r.grew)
+        for key in ("tree", "box", "far", "tenths"):
+            if case.get(key) not in (None, False):
+                ctx.count(f"{case.get('stratum', 'case')}:case-{key}")
+    return f
 
 
 def nontrivial(case):
@@ -576,15 +843,15 @@ def gen_bigbatch(rng):
 
     case["ops"] = [{"op": "add", "rows": [row() for _ in range(n)]}, {"op": "add1", "row": row()},
                    {"op": "add", "rows": [row() for _ in range(3)]}]
-    return case
+    return box_shift(case)
 
 
 def run(ctx):
-    ctx.explore("histories", gen_case, lambda c: run_case(c, {"C14"}), ctx.n(400, 30000), nontrivial=nontrivial,
+    ctx.explore("histories", gen_case, lambda c: run_case(c, {"C14"}, ctx), ctx.n(400, 30000), nontrivial=nontrivial,
                 time_budget=35 if ctx.quick else 420)
-    ctx.explore("high-dimension", gen_highdim, lambda c: run_case(c, {"C14"}), ctx.n(12, 600), nontrivial=nontrivial,
+    ctx.explore("high-dimension", gen_highdim, lambda c: run_case(c, {"C14"}, ctx), ctx.n(12, 600), nontrivial=nontrivial,
                 time_budget=8 if ctx.quick else 90)
-    ctx.explore("big-batch", gen_bigbatch, lambda c: run_case(c, {"C14"}), ctx.n(2, 24), time_budget=25 if ctx.quick else 200)
+    ctx.explore("big-batch", gen_bigbatch, lambda c: run_case(c, {"C14"}, ctx), ctx.n(2, 24), time_budget=25 if ctx.quick else 200)
 
 
 def replay(ctx, case):
